@@ -686,10 +686,10 @@ Proof. unfold user_eq_ok. rewrite N.eqb_refl. reflexivity. Qed.
 
 Theorem equals_wf_symmetric_thm G t1 t2 : wf_equals G t1 t2 = wf_equals G t2 t1.
 Proof.
-  unfold wf_equals, walk_equals.
-  destruct t1 as [|l1 h1|l1 h1|a|], t2 as [|l2 h2|l2 h2|b|]; simpl; try reflexivity.
-  rewrite !user_eq_ok_refl, (user_eq_ok_comm G b a). simpl.
-  destruct (user_eq_ok G a b); reflexivity.
+  unfold wf_equals, walk_equals, eq_arg_ok.
+  destruct t1 as [|l1 h1|l1 h1|a|], t2 as [|l2 h2|l2 h2|b|]; simpl;
+    rewrite ?andb_false_r, ?user_eq_ok_refl; simpl; try reflexivity.
+  rewrite (user_eq_ok_comm G b a). destruct (user_eq_ok G a b); reflexivity.
 Qed.
 
 (* accepted equalities are exactly: two user types with a common ancestor, or two numeric / time types *)
@@ -698,11 +698,11 @@ Theorem equals_wf_char_thm G t1 t2 :
   (exists a b, t1 = TUser a /\ t2 = TUser b /\ user_eq_ok G a b = true) \/
   ((is_num t1 || is_time t1) && (is_num t2 || is_time t2) = true).
 Proof.
-  unfold wf_equals, walk_equals.
-  destruct t1 as [|l1 h1|l1 h1|a|], t2 as [|l2 h2|l2 h2|b|]; simpl;
+  unfold wf_equals, walk_equals, eq_arg_ok.
+  destruct t1 as [|l1 h1|l1 h1|a|], t2 as [|l2 h2|l2 h2|b|]; simpl; rewrite ?andb_false_r, ?user_eq_ok_refl; simpl;
     try (split; [discriminate | intros [[x [y [E1 [E2 _]]]]|E]; [discriminate E1 || discriminate E2 | discriminate E]]);
     try (split; [intros _; right; reflexivity | reflexivity]).
-  rewrite user_eq_ok_refl. simpl. destruct (user_eq_ok G a b) eqn:E; simpl.
+  destruct (user_eq_ok G a b) eqn:E; simpl.
   - split; [intros _; left; exists a, b; auto | reflexivity].
   - split; [discriminate | intros [[x [y [E1 [E2 E3]]]]|E']; [inversion E1; inversion E2; subst; congruence | discriminate E']].
 Qed.
